@@ -4,6 +4,7 @@ import (
 	"fmt"
 	"math"
 	"math/big"
+	"strings"
 
 	"go.1password.io/spg"
 )
@@ -24,6 +25,10 @@ type C13Spec struct {
 	MaxFailRate float64   `json:"max_fail_rate"`
 	Orders      OrderSpec `json:"orders"`
 	TapeSeed    uint64    `json:"tape_seed"`
+	// HugeAlphabet: a custom alphabet of this many distinct characters (CJK block onwards), Length 2,
+	// no requirement: must generate. One such episode per run (the library needs about 12 s of
+	// processor time to build a 65536-character alphabet).
+	HugeAlphabet int `json:"huge_alphabet,omitempty"`
 }
 
 func init() {
@@ -31,12 +36,16 @@ func init() {
 		ID: "C13", Level: "exploration",
 		Technique:   "deterministic simulation: seeded recipes (zero-valued, degenerate, overlapping requirements) with randomised retry knobs; refusal decision compared with the exact success probability; scripted adversarial tapes on which every candidate fails or only the last permitted candidate succeeds",
 		Rule:        "case = one Generate / SuccessProbability call with its expected outcome class; distinct by hash of (recipe, knobs, stream kind); non-trivial = the recipe has a requirement, is degenerate (length<=0, empty alphabet, missing list) or the stream is adversarial",
-		Assumptions: []string{"recipes whose failure bound (1-p)^MaxTrials is within a factor 1+-1e-3 of MaxFailRate are don't-care (float32 rounding)", "a recipe in which exclusion empties a required set is don't-care for the refusal decision (the statements leave it open) but must still not panic", "an error after exactly MaxTrials failed candidates on a random stream is legitimate (probability <= MaxFailRate)"},
+		Assumptions: []string{"recipes whose failure bound (1-p)^MaxTrials is within a factor 1+-1e-3 of MaxFailRate are don't-care (float32 rounding)", "a required set that exclusion has emptied requires nothing (C03: 'each required set that still has a non-excluded member')", "an error after exactly MaxTrials failed candidates on a random stream is legitimate (probability <= MaxFailRate)"},
 		Episodes:    map[string]int{"quick": 16000, "thorough": 6000000},
 		TwiceEvery:  7,
 		Real:        []string{"CharRecipe.Generate/SuccessProbability/hasAcceptableFailRate", "WLRecipe.Generate", "package knobs MaxTrials/MaxFailRate"},
 		Simulated:   []string{"crypto/rand.Reader (random and adversarial choice tapes)", "alphabet index order (H2)", "retry knobs (randomised per episode, restored afterwards)"},
-		Gen: func(seed uint64, tier string) interface{} {
+		GenI: func(seed uint64, tier string, i int) interface{} {
+			if i == 5 {
+				n := 65536 // the square of the alphabet size no longer fits in 32 bits
+				return &C13Spec{Kind: "huge", HugeAlphabet: n, Orders: OrderSpec{Chars: "sorted", Words: "sorted", Visit: "sorted"}, TapeSeed: mix(seed, "tape"), MaxTrials: 200, MaxFailRate: 1e-9}
+			}
 			r := Sub(seed, "config")
 			s := &C13Spec{Orders: genOrders(r, seed), TapeSeed: mix(seed, "tape"), MaxTrials: 200, MaxFailRate: 1e-9}
 			if r.Chance(0.4) {
@@ -53,13 +62,13 @@ func init() {
 						cc.Length = pick(r, []int{4, 8, 16})
 					}
 				}
-				if r.Chance(0.004) {
+				manyReq, veryLong := 0.006, 0.004
+				if tier == "thorough" {
+					manyReq, veryLong = 0.00004, 0.0004 // each call costs up to seconds: a few hundred such episodes, not hundreds of thousands
+				}
+				if r.Chance(veryLong) {
 					// very long passwords with a requirement (counts with exponents beyond 2^15)
 					cc = CharCfg{Length: pick(r, []int{32767, 32768, 33000, 40000}), Allow: 7, RequireSets: []string{pick(r, []string{"#", "ab", "7"})}}
-				}
-				manyReq := 0.006
-				if tier == "thorough" {
-					manyReq = 0.001 // each call costs seconds: about as many such episodes as in the quick tier
 				}
 				if r.Chance(manyReq) {
 					cc = genManyReqCfg(r)
@@ -152,6 +161,8 @@ func runC13(c *Ctx, si interface{}) {
 	defer func() { knobZeroTrials, knobZeroFail = false, false }()
 	withKnobs(s.MaxTrials, s.MaxFailRate, func() {
 		switch s.Kind {
+		case "huge":
+			c13Huge(c, s)
 		case "char":
 			c13Char(c, s)
 		case "wl":
@@ -504,4 +515,36 @@ func refusalExpectation(p, E float64, trials int, limit float64) (string, string
 		return "ok", fmt.Sprintf("failure bound %.6g below the limit %g", math.Pow(1-p, float64(trials)), limit)
 	}
 	return "dontcare", ""
+}
+
+// c13Huge: an alphabet with more characters than fit in 16 bits; nothing is required, so Generate
+// must return a password of Length characters of the alphabet (products of alphabet sizes overflow
+// 32 bits from 65536 characters on).
+func c13Huge(c *Ctx, s *C13Spec) {
+	var sb strings.Builder
+	in := map[string]bool{}
+	for i := 0; i < s.HugeAlphabet; i++ {
+		ch := string(rune(0x4e00 + i))
+		if i >= 0x5200 { // stay clear of the surrogate range
+			ch = string(rune(0x10000 + i))
+		}
+		sb.WriteString(ch)
+		in[ch] = true
+	}
+	rec := spg.CharRecipe{Length: 2, AllowChars: sb.String()}
+	res := genOp(NewTape(TapeSpec{Mode: "choice", Seed: s.TapeSeed, Default: "random"}), &rec)
+	c.Eval(1)
+	c.T(res.Kind)
+	c.Distinct("huge-alphabet", s.HugeAlphabet)
+	c.Probe("alphabet_of_65536_or_more_characters", 1)
+	switch res.Kind {
+	case "panic":
+		c.Violate("panic", "panic-huge-alphabet", "CharRecipe{Length: 2, AllowChars: %d distinct characters}.Generate panicked: %s", s.HugeAlphabet, res.Panic)
+	case "error":
+		c.Violate("refused-honourable", "refused-huge-alphabet", "CharRecipe{Length: 2, AllowChars: %d distinct characters} has no requirement and a non-empty alphabet but Generate returned an error: %s", s.HugeAlphabet, res.brief())
+	case "ok":
+		if len(res.Pw.Tokens) != 2 || !in[res.Pw.Tokens[0].V] || !in[res.Pw.Tokens[1].V] {
+			c.Violate("invalid-password", "invalid-huge-alphabet", "CharRecipe{Length: 2, AllowChars: %d distinct characters} returned %q", s.HugeAlphabet, res.Pw.S)
+		}
+	}
 }
